@@ -12,3 +12,4 @@ if ! git -C /repo apply "$P" 2>/dev/null; then
 fi
 for c in "$@"; do VERIF_EVIDENCE_DIR=/tmp/seed_evidence ./check "$c" > /tmp/seedrun_$c.log 2>&1; rc=$?; echo "== $c exit=$rc $(grep -cE '^VIOLATION' /tmp/seedrun_$c.log) violation line(s)"; grep -E "^VIOLATION|^KNOWN" /tmp/seedrun_$c.log | head -2; done
 git -C /repo checkout -- .
+git -C /repo clean -fdq -- scpi scpi-contrib scpi-derive    # files a patch created
